@@ -5,6 +5,8 @@ import (
 	"fmt"
 	"sort"
 	"strconv"
+	"strings"
+	"time"
 
 	"github.com/grafana/dskit/ring"
 )
@@ -56,6 +58,28 @@ func c05Lookups(d *ring.Desc) (inc, panics int) {
 	return
 }
 
+// c05GetIDs is the canonical answer of a lookup: sorted instance ids, or the error text class.
+func c05GetIDs(r *ring.Ring, key uint32) (out string) {
+	defer func() {
+		if rec := recover(); rec != nil {
+			out = "panic"
+		}
+	}()
+	rs, err := r.Get(key, ring.Write, nil, nil, nil)
+	if err != nil {
+		if errors.Is(err, ring.ErrInconsistentTokensInfo) {
+			return "inconsistent"
+		}
+		return "err"
+	}
+	ids := make([]string, 0, len(rs.Instances))
+	for _, i := range rs.Instances {
+		ids = append(ids, i.Id)
+	}
+	sort.Strings(ids)
+	return strings.Join(ids, ",")
+}
+
 func c05Desc(r *rng, nIDs int, wild bool) *ring.Desc {
 	d := ring.NewDesc()
 	for id := 0; id < nIDs; id++ {
@@ -76,6 +100,12 @@ func runC05(e *env) {
 	r := newRng(e.seed, 5)
 	nHist := 1500 * e.scale
 	for h := 0; h < nHist; h++ {
+		// `live` is mutated in place by the real Merge, exactly like the value held by the gossip KV
+		// store; readers (a long-lived ring client) only ever get Desc.Clone() snapshots, which SHARE
+		// token storage with it. A merge that writes into storage still referenced by an earlier
+		// snapshot shows up as a mutated snapshot or as a client whose lookups differ from a fresh one.
+		live := ring.NewDesc()
+		var client *ring.Ring
 		state := ring.NewDesc()
 		nIDs := 2 + r.intn(3)
 		steps := 2 + r.intn(6)
@@ -123,12 +153,41 @@ func runC05(e *env) {
 				st, ch = implMerge(state, other, cas, clock)
 				results[encDesc(st)+"|"+encChange(ch)] = true
 			}
+			// the same merge applied in place to the live value, observed through shared-storage clones
+			snapBefore := live.Clone().(*ring.Desc)
+			encBefore := encDesc(snapBefore)
+			if client == nil {
+				client, _ = ring.VerifNewRing(ring.Config{ReplicationFactor: 2, HeartbeatTimeout: 1 << 62}, snapBefore, nil)
+			} else {
+				client.VerifUpdateRingState(snapBefore)
+			}
+			if _, err := live.VerifMergeWithTime(cloneDesc(other), cas, time.Unix(clock, 0)); err != nil {
+				panic(err)
+			}
+			snapMut := 0
+			if encDesc(snapBefore) != encBefore {
+				snapMut = 1
+			}
+			snapAfter := live.Clone().(*ring.Desc)
+			alias := 0
+			if client != nil {
+				client.VerifUpdateRingState(snapAfter)
+				fresh, _ := ring.VerifNewRing(ring.Config{ReplicationFactor: 2, HeartbeatTimeout: 1 << 62}, cloneDesc(live), nil)
+				for _, key := range []uint32{0, 1, 2, 3, 4, 5, 1<<32 - 1} {
+					if c05GetIDs(client, key) != c05GetIDs(fresh, key) {
+						alias++
+					}
+				}
+			}
+			if encDesc(live) != encDesc(st) {
+				alias += 100 // in-place merge and copy merge must agree
+			}
 			inc, pn := c05Lookups(st)
 			c := "0"
 			if cas {
 				c = "1"
 			}
-			e.emit("C05.step", c, strconv.FormatInt(clock, 10), encDesc(state), encDesc(other), encDesc(st), encChange(ch), strconv.Itoa(len(results)), fmt.Sprintf("inc=%d,panic=%d", inc, pn))
+			e.emit("C05.step", c, strconv.FormatInt(clock, 10), encDesc(state), encDesc(other), encDesc(st), encChange(ch), strconv.Itoa(len(results)), fmt.Sprintf("inc=%d,panic=%d", inc, pn), fmt.Sprintf("alias=%d,snapmut=%d", alias, snapMut))
 			state = st
 		}
 	}
